@@ -7,7 +7,51 @@ from ..dataflow import operand_root, root_local, field_names
 from ..facts import callee, callee_decl
 
 STATE = 'samlang_services::server_state::ServerState'
-MAPS = ('string_sources', 'parsed_modules', 'checked_modules', 'global_cx', 'errors')
+MAPS = ('string_sources', 'parsed_modules', 'checked_modules', 'global_cx', 'errors')   # role names
+
+
+def state_roles(prog):
+    """Role -> actual field name of ServerState, resolved by the *value type* of each ModuleReference-keyed map
+    (so renaming a field does not disturb the rules):
+      string_sources: String; parsed_modules: Module<()>; checked_modules: Module<Arc<Type>>;
+      global_cx: ModuleSignature; errors: Vec<CompileTimeError>; dep_graph: the DependencyGraph field."""
+    st = [a for a in prog.adts.values() if a.name == STATE]
+    if len(st) != 1:
+        return None
+    roles = {}
+    for f in st[0].variants[0].fields:
+        t = f.ty
+        if t.k == 'adt' and t.name.startswith('std::collections::HashMap') and len(t.args) >= 2 \
+                and t.args[0].k == 'adt' and t.args[0].name.endswith('ModuleReference'):
+            v = t.args[1]
+            if v.k == 'adt' and v.name == 'std::string::String':
+                roles['string_sources'] = f.name
+            elif v.k == 'adt' and v.name == 'samlang_ast::source::Module':
+                if v.args and v.args[0].k == 'tup':
+                    roles['parsed_modules'] = f.name
+                else:
+                    roles['checked_modules'] = f.name
+            elif v.k == 'adt' and v.name.endswith('ModuleSignature'):
+                roles['global_cx'] = f.name
+            elif v.k == 'adt' and v.name.startswith('std::vec::Vec') and v.args and v.args[0].name.endswith('CompileTimeError'):
+                roles['errors'] = f.name
+        elif t.k == 'adt' and t.name.endswith('DependencyGraph'):
+            roles['dep_graph'] = f.name
+    return roles if len(roles) == 6 else None
+
+
+_ROLE_OF_FIELD = {}
+
+
+def _install_roles(prog):
+    roles = state_roles(prog)
+    _ROLE_OF_FIELD.clear()
+    if roles:
+        for role, field in roles.items():
+            _ROLE_OF_FIELD[field] = role
+    return roles
+
+
 # keys(A) is a subset of keys(B); derived by reading the three mutators and ServerState::new (the mutator
 # side of these inclusions is what the C10 rules UPDATE-ORDER / SIG-KEY watch).
 INCLUDED_IN = {
@@ -73,8 +117,8 @@ def _state_map_of(body, op):
     root, path = operand_root(body, op)
     for e in reversed(path):
         if e[0] == 'f':
-            if e[1] == STATE and e[4] in MAPS:
-                return e[4]
+            if e[1] == STATE and _ROLE_OF_FIELD.get(e[4]) in MAPS:
+                return _ROLE_OF_FIELD[e[4]]
             return None
     return None
 
@@ -320,6 +364,9 @@ class Analysis:
 def run(prog, tier, repo):
     res = RuleResult('LOOKUP-UNWRAP', 'C11: a request on any file returns a result or nothing - no unwrap of a state-map '
                      'lookup without a dominating successful lookup of the same key')
+    if _install_roles(prog) is None:
+        res.cannot_decide('the module maps of ServerState (by value type)')
+        return [res]
     an = Analysis(prog)
     an.compute_validators()
     res.analysed['validating_helpers'] = sorted(
@@ -378,6 +425,9 @@ def run_writers(prog, tier, repo):
     """STATE-WRITERS: the key-set inclusions LOOKUP-UNWRAP relies on can only be broken by code that mutates the
     maps; that code must live in the server_state module (whose three mutators the C10 rules analyse)."""
     res = RuleResult('STATE-WRITERS', 'C11: only the server-state module mutates the module maps (key-set inclusions)')
+    if _install_roles(prog) is None:
+        res.cannot_decide('the module maps of ServerState (by value type)')
+        return [res]
     n = 0
     for b in prog.bodies.values():
         for bi, bl in enumerate(b.blocks):
@@ -397,11 +447,11 @@ def run_writers(prog, tier, repo):
                 fs = [e for e in pl.proj if e[0] == 'f']
                 if not fs or fs[-1][1] != STATE and not any(e[1] == STATE for e in fs):
                     continue
-                hit = [e for e in fs if e[1] == STATE and e[4] in MAPS]
+                hit = [e for e in fs if e[1] == STATE and _ROLE_OF_FIELD.get(e[4]) in MAPS]
                 if not hit:
                     continue
                 n += 1
-                m = hit[0][4]
+                m = _ROLE_OF_FIELD[hit[0][4]]
                 key = f'{b.name}:{m}'
                 if b.name.startswith('samlang_services::server_state::'):
                     res.ok(key, b.loc(st[3]), 'mutation inside the server_state module')
